@@ -320,8 +320,11 @@ def analyse(case, o):
         return lits[raw]
 
     def pack(chk, kn):
-        pre = "".join("let %s := %s in " % (n, common.coq_str(v)) for v, n in lits.items())
-        return pre + "(%s, %s, ([%s] : list bool))" % (chk, kn, "; ".join(toks))
+        body = "(%s, %s, ([%s] : list bool))" % (chk, kn, "; ".join(toks))
+        if not lits:
+            return body
+        # a beta-redex, not let-in: coqc needs gigabytes for a chain of lets bound to long list literals
+        return "(fun (%s : bytes) => %s) %s" % (" ".join(lits.values()), body, " ".join(common.coq_str(v) for v in lits))
     vn = vname(pad)
     gso = o.get("gso") or {}
     staged_ok = ok(gso) and o.get("list_staged_ok", False)
